@@ -12,11 +12,11 @@ import (
 	"fmt"
 	"os"
 	"path/filepath"
-	"sort"
 	"runtime/debug"
-	"runtime/pprof"
+	"sort"
 	"strings"
 	"sync"
+	"time"
 
 	dbm "github.com/33cn/chain33/common/db"
 	"github.com/33cn/chain33/common/log/log15"
@@ -615,8 +615,8 @@ func driveIter(m *model, s *IterSpec, bes []*backend, st *stats) (divs []div, fl
 				}
 			}
 			divs = append(divs, div{be: b.name, step: si, shape: iterShape(b.name, s, sp, want, gots[i]),
-				msg: fmt.Sprintf("%s iterator(start=%q end=%q mode=%s %s) step %d %s(%q): got %s, model %s [%s]",
-					b.name, s.Start, s.End, s.EndMode, dirName(s.Rev), si, sp.K, sp.T, gots[i], want, strings.Join(others, " ")),
+				msg: fmt.Sprintf("%s iterator(start=%q end=%q mode=%s %s) step %d %s(%q): got %s, model %s",
+					b.name, s.Start, s.End, s.EndMode, dirName(s.Rev), si, sp.K, sp.T, gots[i], want),
 				others: strings.Join(others, " ")})
 		}
 	}
@@ -943,9 +943,6 @@ func runCase(idx int, p *Program, tmp string) (res caseResult) {
 	if !p.FF {
 		names = append(names, beBadger)
 	}
-	if e := os.Getenv("C06_BACKENDS"); e != "" {
-		names = strings.Split(e, ",")
-	}
 	dir := filepath.Join(tmp, fmt.Sprintf("case-%d", idx))
 	bes := openBackends(names, dir)
 	defer closeBackends(bes, dir)
@@ -1026,7 +1023,11 @@ func runCase(idx int, p *Program, tmp string) (res caseResult) {
 						shape += "-history-dependent" // not reproducible from the live contents alone
 					}
 				}
-				report(shape, dd.msg, map[string]any{"backend": d.be, "db_contents": kvWitness(mm), "query": iterWitness(ss),
+				msg := dd.msg
+				if d.others != "" {
+					msg += " [same step of the generated case on the other backends: " + d.others + "]"
+				}
+				report(shape, msg, map[string]any{"backend": d.be, "db_contents": kvWitness(mm), "query": iterWitness(ss),
 					"failing_step": dd.step, "minimised": min, "op_index": oi, "leveldb_compactions_before": st.counters["ops_flush"]})
 			}
 		case "flush":
@@ -1178,11 +1179,6 @@ func childRun(in []byte) (any, error) {
 	tmp := os.Getenv("VERIF_TMP")
 	cur := filepath.Join(filepath.Dir(os.Getenv("VERIF_CHILD_OUT")), "current-case")
 	ctx := &lib.Ctx{Prop: "C06", Seed: ci.Seed}
-	if pf := os.Getenv("C06_PROF"); pf != "" {
-		f, _ := os.Create(fmt.Sprintf("%s.%d", pf, os.Getpid()))
-		pprof.StartCPUProfile(f)
-		defer pprof.StopCPUProfile()
-	}
 	var out childOut
 	one := func(idx int, p *Program) {
 		os.WriteFile(cur, []byte(fmt.Sprint(idx)), 0o644)
@@ -1225,12 +1221,12 @@ func run(c *lib.Ctx) {
 		"error values returned by Delete/Write for absent keys are not compared (not part of the statement)",
 		"Next on an invalid iterator is compared on memdb/goleveldb (must stay invalid) and not executed on badger (nil item dereference in the library)",
 		"empty keys are not written (badger rejects them)")
-	n := c.N(150, 2000)
+	n := c.N(100, 2000)
 	maxOps := 600
 	if !c.Quick() {
 		maxOps = 2000
 	}
-	workers := 16
+	workers := 12
 	var idxs []int
 	for i := 0; i < n || (c.OnlyIdx >= 0 && i <= c.OnlyIdx); i++ {
 		if c.Skip(i) {
@@ -1266,7 +1262,7 @@ func run(c *lib.Ctx) {
 	}
 	lib.Parallel(len(jobs), workers, func(j int) {
 		dir := filepath.Join(c.Tmp, fmt.Sprintf("job-%d", j))
-		res := c.Child("run", jobs[j], lib.ChildOpts{Dir: dir})
+		res := c.Child("run", jobs[j], lib.ChildOpts{Dir: dir, Timeout: 40 * time.Minute})
 		var out childOut
 		if res.Out != nil {
 			json.Unmarshal(res.Out, &out)
